@@ -1,5 +1,5 @@
 (* C15 — output rows line up with results; JSON is a well-formed document that preserves text. *)
-From CPF Require Import Base.Json Base.JsonFacts Engine.Query Engine.Process Engine.ProcessFacts.
+From CPF Require Import Base.Json Base.JsonFacts Engine.Query Engine.Process Engine.ProcessFacts Engine.Render Engine.RenderFacts.
 
 (* one row per reported combination, one value per SELECT item, in SELECT order, each computed
    on that combination's own entities ([row q t] only reads [tuple_env q t]) *)
@@ -30,3 +30,20 @@ Print Assumptions C15_json_wellformed.
 Theorem C15_json_indent_wellformed : forall v, wf_json v = true -> decode (encode_indent v) = Some v.
 Proof. exact decode_encode_indent. Qed.
 Print Assumptions C15_json_indent_wellformed.
+
+(* the JSON document cmd.processQuery returns (Engine/Render.v, compared byte for byte with the real one) is
+   ONE document: it decodes to the structure it was built from, whose result_set lists the locations of the
+   reported combinations in order ... *)
+Theorem C15_json_document : forall rs rows b jr,
+  render_json rs rows = Some b -> json_rows rows = Some jr -> wf_json (json_answer rs jr) = true ->
+  decode b = Some (json_answer rs jr) /\ json_locations (json_answer rs jr) = Some (locations rs).
+Proof. exact render_json_decodes. Qed.
+Print Assumptions C15_json_document.
+
+(* ... and the text report is a sequence of blocks, one per entity of every reported combination in the same
+   order, each starting with the header that shows that entity's file and line: text mode and JSON mode
+   describe the same locations (output-file and verbose change where the string goes, not the string) *)
+Theorem C15_same_locations : forall rs tr, length rs = length tr ->
+  exists blocks, text_answer rs tr = concat blocks /\ Forall2 starts_with_header blocks (locations rs).
+Proof. exact text_answer_blocks. Qed.
+Print Assumptions C15_same_locations.
